@@ -512,3 +512,12 @@ V("collection __getitem__ hands every tensor result to the element class", "C04"
 V("QuadricCollection[i] forgets is_dual (E16 view)", "C04", CURVE, "        return QuadricCollection.from_tensor(result, is_dual=self.is_dual)", "        return QuadricCollection.from_tensor(result)", "E16", "QuadricCollection")
 V("Tensor.__init__ takes covariant= positions as absolute axis numbers", "C19", BASE, "                self._covariant_indices.add(n_free_indices + idx)", "                self._covariant_indices.add(idx)", "E15", "Tensor.__init__")
 V("Tensor.__init__ leaves the collection axes among the contravariant indices", "C19", BASE, "        self._contravariant_indices = set(range(self.rank)) - self._covariant_indices - free_indices", "        self._contravariant_indices = set(range(self.rank)) - self._covariant_indices", "E15", "Tensor.__init__")
+
+
+# ------------------------------------------------------------------------------------------------ closed-form roots (E12.roots)
+V("D7 regression: triple root with the wrong sign", "C20", MATH, "        x = -np.cbrt(d / a)", "        x = np.cbrt(d / a)", "E12.roots", "roots")
+V("quadratic branch: discriminant with the wrong factor", "C20", MATH, "        D = c**2 - 4 * b * d", "        D = c**2 - 2 * b * d", "E12.roots", "roots")
+V("quadratic branch: denominator without the factor 2", "C20", MATH, "        x1 = (-c + D) / (2 * b)", "        x1 = (-c + D) / b", "E12.roots", "roots")
+V("linear branch: sign of the root", "C20", MATH, "        return np.array([-d / c])", "        return np.array([d / c])", "E12.roots", "roots")
+V("twin: quadratic roots written with the quotient distributed", "C20", MATH, "        x1 = (-c + D) / (2 * b)", "        x1 = -c / (2 * b) + D / (2 * b)", "silent")
+V("twin: triple root from the sum of the roots", "C20", MATH, "        x = -np.cbrt(d / a)", "        x = -b / (3 * a)", "silent")
